@@ -38,6 +38,14 @@ def repo_dir():
     return os.path.abspath(os.environ.get("VERIF_REPO", "/repo"))
 
 
+def out_dir(kind):
+    """evidence/ and replays/ belong to runs against /repo itself; runs against a scratch copy
+    (sensitivity testing with VERIF_REPO) write under .work/ instead."""
+    if repo_dir() != "/repo":
+        return os.path.join(VERIF, ".work", "alt-" + kind)
+    return os.path.join(VERIF, kind)
+
+
 def go_env(work):
     env = dict(os.environ)
     env["GOFLAGS"] = "-mod=mod"
@@ -305,7 +313,7 @@ def load_known():
 
 def save_replay(pid, res, tier, seed):
     """Write a self-contained replay descriptor; returns its path."""
-    d = os.path.join(VERIF, "replays", pid)
+    d = os.path.join(out_dir("replays"), pid)
     os.makedirs(d, exist_ok=True)
     ff = None
     if res["failfiles"]:
@@ -454,11 +462,11 @@ def run_property(pid, tier, seed, replay=None, keep=False, only_unit=None):
                 errors.append(r)
         per_test = merge_stats(results)
         ev = build_evidence(pid, tier, seed, spec, per_test, results, nviol, time.time() - t_start, lines)
-        os.makedirs(os.path.join(VERIF, "evidence"), exist_ok=True)
+        os.makedirs(out_dir("evidence"), exist_ok=True)
         if not replay and not only_unit:
-            tmp = os.path.join(VERIF, "evidence", ".%s.json.%d" % (pid, os.getpid()))
+            tmp = os.path.join(out_dir("evidence"), ".%s.json.%d" % (pid, os.getpid()))
             json.dump(ev, open(tmp, "w"), indent=1, sort_keys=True)
-            os.replace(tmp, os.path.join(VERIF, "evidence", "%s.json" % pid))
+            os.replace(tmp, os.path.join(out_dir("evidence"), "%s.json" % pid))
         if nviol:
             status = 1
         elif errors:
